@@ -367,6 +367,204 @@ def utility_cases():
 
 
 # ------------------------------------------------------------------------------------------------
+# utilities called DIRECTLY with caller-owned tensors of degenerate shapes and sign patterns
+
+SIGNS = ("neg", "zero", "pos", "mixed")
+
+
+def _signed(rng, sign, *shape, dtype=torch.float64):
+    """values with a sign pattern: all negative / all zero / all positive / mixed with one exact zero"""
+    x = R(rng, *shape, lo=0.5, hi=2.0, dtype=dtype)
+    if sign == "neg":
+        return -x
+    if sign == "zero":
+        return torch.zeros_like(x)
+    if sign == "mixed":
+        y = x.clone().reshape(-1)
+        for i in range(y.numel()):
+            y[i] = y[i] * (-1.0 if i % 2 == 0 else 1.0)
+        if y.numel() > 2:
+            y[-1] = 0.0
+        return y.reshape(x.shape)
+    return x
+
+
+def _symtri(rng, sign, lead, k):
+    """symmetric tridiagonal k x k matrices with leading dims `lead`; the sign pattern is that of the diagonal (eigenvalues for k = 1)"""
+    d = _signed(rng, sign, *lead, k)
+    t = torch.diag_embed(d)
+    if k > 1:
+        o = R(rng, *lead, k - 1, lo=-0.3, hi=0.3)
+        t = t + torch.diag_embed(o, 1) + torch.diag_embed(o, -1)
+    return t
+
+
+def degenerate_utility_cases():
+    """the utilities of the anchored files called directly on 1x1 / single-probe / single-batch / size-1 inputs with negative, zero,
+    positive and mixed entries (early-exit and special-case paths that the library's own callers never feed)"""
+    import linear_operator
+    from linear_operator import settings
+    from linear_operator.utils import cholesky as uchol, interpolation as uint, lanczos as ulan, permutation as uperm, qr as uqr, \
+        sparse as usp, toeplitz as utoe
+    from linear_operator.utils.linear_cg import linear_cg
+    from linear_operator.utils.minres import minres
+    from linear_operator.utils.pinverse import stable_pinverse
+    C = []
+
+    def add(entry, variant, b):
+        C.append(("degenerate." + entry, variant, b))
+    LEADS = [(), (1,), (2,), (1, 2)]
+    for sign in SIGNS:
+        # ---- Lanczos
+        for k in (1, 2, 3):
+            for lead in LEADS:
+                def b(ar, rng, sign=sign, k=k, lead=lead):
+                    t = ar.t(_symtri(rng, sign, lead, k), "t_mat", expand="batch")
+                    return lambda: ulan.lanczos_tridiag_to_diag(t)
+                add("lanczos_tridiag_to_diag", "%s/k%d/lead%s" % (sign, k, "x".join(map(str, lead)) or "-"), b)
+        for n in (1, 2, 3):
+            for mi in (1, 2):
+                for bs in ((), (1,)):
+                    def b(ar, rng, sign=sign, n=n, mi=mi, bs=bs):
+                        A = ar.t(torch.diag_embed(_signed(rng, sign, *bs, n)) + (0.1 if n > 1 else 0.0), "A", expand="none")
+                        init = ar.t(R(rng, *bs, n, 1, lo=0.5, hi=1.5), "init_vecs", expand="none")
+
+                        def go():
+                            q, t = ulan.lanczos_tridiag(lambda v: A @ v, mi, dtype=torch.float64, device=torch.device("cpu"), matrix_shape=torch.Size((n, n)),
+                                                        batch_shape=torch.Size(bs), init_vecs=init)
+                            tw = ar.t(t, "returned_t_mat", expand="none") if False else t
+                            snap = (tw._version, tw.clone())
+                            ev = ulan.lanczos_tridiag_to_diag(tw)
+                            if tw._version != snap[0] or not torch.equal(tw, snap[1]):
+                                ar.watches.append(Flag("t_mat returned by lanczos_tridiag (now the caller's) changed by lanczos_tridiag_to_diag"))
+                            return ev
+                        return go
+                    add("lanczos_tridiag+to_diag", "%s/n%d/iter%d/b%s" % (sign, n, mi, "x".join(map(str, bs)) or "-"), b)
+        # ---- cholesky / qr / pinverse
+        for n in (1, 2):
+            for bs in ((), (1,), (2,)):
+                for dt in (torch.float64, torch.float32):
+                    def b(ar, rng, sign=sign, n=n, bs=bs, dt=dt):
+                        d = _signed(rng, sign, *bs, n, dtype=dt) * (1e-7 if dt == torch.float32 and sign == "pos" else 1.0)
+                        A = ar.t(torch.diag_embed(d), "A", expand="batch" if not bs else "none")
+                        return lambda: uchol.psd_safe_cholesky(A)
+                    add("psd_safe_cholesky", "%s/n%d/b%s/%s" % (sign, n, "x".join(map(str, bs)) or "-", "f32" if dt == torch.float32 else "f64"), b)
+        for shp in ((1, 1), (2, 1), (1, 2), (1, 1, 1), (2, 2)):
+            def b(ar, rng, sign=sign, shp=shp):
+                M = ar.t(_signed(rng, sign, *shp), "mat", expand="batch")
+                return lambda: uqr.stable_qr(M)
+            add("stable_qr", "%s/%s" % (sign, "x".join(map(str, shp))), b)
+
+            def b(ar, rng, sign=sign, shp=shp):
+                M = ar.t(_signed(rng, sign, *shp), "A", expand="batch")
+                return lambda: stable_pinverse(M)
+            add("stable_pinverse", "%s/%s" % (sign, "x".join(map(str, shp))), b)
+        # ---- toeplitz
+        for n in (1, 2):
+            for bs in ((), (1,)):
+                def b(ar, rng, sign=sign, n=n, bs=bs):
+                    c = ar.t(_signed(rng, sign, *bs, n), "toeplitz_column", expand="none")
+                    r = ar.t(c.detach().clone(), "toeplitz_row", expand="none")
+                    M = ar.t(_signed(rng, "mixed", *bs, n, 1), "tensor")
+                    v = ar.t(_signed(rng, sign, n), "vector", expand="none")
+                    L = ar.t(_signed(rng, sign, 1, n), "left_vectors")
+
+                    def go():
+                        out = [utoe.toeplitz_matmul(c, r, M), utoe.sym_toeplitz_matmul(c, M), utoe.sym_toeplitz_derivative_quadratic_form(L, L)]
+                        if not bs:
+                            out += [utoe.toeplitz(c, r), utoe.sym_toeplitz(c), utoe.toeplitz_getitem(c, r, 0, n - 1), utoe.sym_toeplitz_getitem(c, n - 1, 0),
+                                    utoe.sym_toeplitz_matmul(c, v), utoe.toeplitz_matmul(c, r, v)]
+                        return out
+                    return go
+                add("toeplitz_utils", "%s/n%d/b%s" % (sign, n, "x".join(map(str, bs)) or "-"), b)
+        # ---- sparse
+        for nnz in (1, 2):
+            for idxk in ("int0", "slice-all", "slice-1", "col0", "scalar", "slice-from-first", "full-then-slice"):
+                for coal in (False, True):
+                    def b(ar, rng, sign=sign, nnz=nnz, idxk=idxk, coal=coal):
+                        i = torch.tensor([[1], [1]]) if nnz == 1 else torch.tensor([[1, 2], [1, 2]])
+                        sp = ar.sparse(i, _signed(rng, sign, nnz), (3, 3), "sparse", coalesce=coal)
+                        idx = {"int0": (0,), "slice-all": (slice(None),), "slice-1": (slice(0, 1),), "col0": (slice(None), 0), "scalar": (1, 1),
+                               "slice-from-first": (slice(1, 3),), "full-then-slice": (slice(None), slice(1, 3))}[idxk]
+                        return lambda: usp.sparse_getitem(sp, idx)
+                    add("sparse_getitem", "%s/nnz%d/%s/%s" % (sign, nnz, idxk, "coalesced" if coal else "uncoalesced"), b)
+        for shp in ((1, 1), (1, 1, 1), (2, 1, 1)):
+            def b(ar, rng, sign=sign, shp=shp):
+                i = ar.t(torch.zeros(shp, dtype=torch.long), "interp_indices", expand="none")
+                v = ar.t(_signed(rng, sign, *shp), "interp_values", expand="none")
+                rhs = ar.t(_signed(rng, "mixed", *shp[:-2], 1, 1), "rhs")
+
+                def go():
+                    return [usp.make_sparse_from_indices_and_values(i, v, 1), uint.left_interp(i, v, rhs), uint.left_t_interp(i, v, rhs, 1)]
+                return go
+            add("interp_and_make_sparse", "%s/%s" % (sign, "x".join(map(str, shp))), b)
+
+        def b(ar, rng, sign=sign):
+            D = ar.t(_signed(rng, sign, 1, 1), "dense")
+            sp = ar.sparse(torch.tensor([[0], [0]]), _signed(rng, sign, 1), (1, 1), "sparse")
+            d2 = ar.t(_signed(rng, "mixed", 1, 1), "dense2")
+            return lambda: [usp.to_sparse(D), usp.bdsmm(sp, d2), usp.sparse_repeat(sp, 2, 1), linear_operator.dsmm(sp, d2)]
+        add("sparse_utils", "%s/1x1" % sign, b)
+        # ---- permutation
+        for bs in ((), (1,)):
+            def b(ar, rng, sign=sign, bs=bs):
+                M = ar.t(_signed(rng, sign, *bs, 1, 1), "matrix", expand="none")
+                p = ar.t(torch.zeros(*bs, 1, dtype=torch.long), "permutation", expand="none")
+                return lambda: [uperm.apply_permutation(M, p, p), uperm.apply_permutation(M, p, None), uperm.inverse_permutation(p)]
+            add("permutation_utils", "%s/b%s" % (sign, "x".join(map(str, bs)) or "-"), b)
+        # ---- solvers
+        for n in (1, 2):
+            for var in ("plain", "guess", "tridiag", "precond", "zero-rhs", "vec"):
+                def b(ar, rng, sign=sign, n=n, var=var):
+                    A = ar.t(torch.diag_embed(_signed(rng, sign, n)), "A", expand="none")
+                    rhs = ar.t(torch.zeros(n, 1, dtype=torch.float64) if var == "zero-rhs" else (_signed(rng, "mixed", n) if var == "vec" else _signed(rng, "mixed", n, 1)), "rhs",
+                               expand="none")
+                    kw = {}
+                    if var == "guess":
+                        kw["initial_guess"] = ar.t(_signed(rng, "mixed", n, 1), "initial_guess", expand="none")
+                    if var == "tridiag":
+                        kw.update(n_tridiag=1, max_tridiag_iter=1)
+                    if var == "precond":
+                        kw["preconditioner"] = lambda v: v
+                    return lambda: (linear_cg(lambda v: A @ v, rhs, max_iter=3, **kw), minres(lambda v: A @ v, rhs, max_iter=3))
+                add("linear_cg+minres", "%s/n%d/%s" % (sign, n, var), b)
+        # ---- functions on 1x1 / 2x2 tensors
+        for n in (1, 2):
+            for st in ("default", "iterative"):
+                def b(ar, rng, sign=sign, n=n, st=st):
+                    A = ar.t(torch.diag_embed(_signed(rng, sign, n)), "input", expand="none")
+                    rhs = ar.t(_signed(rng, "mixed", n, 1), "rhs", expand="none")
+                    d = ar.t(_signed(rng, sign, n), "diag", expand="none")
+
+                    def go():
+                        out = []
+                        fs = [lambda: linear_operator.add_diagonal(A, d).to_dense(), lambda: linear_operator.add_jitter(A, 0.5), lambda: linear_operator.diagonalization(A),
+                              lambda: linear_operator.inv_quad(A, rhs), lambda: linear_operator.inv_quad_logdet(A, rhs, logdet=True),
+                              lambda: linear_operator.pivoted_cholesky(A, rank=1), lambda: linear_operator.root_decomposition(A).to_dense(),
+                              lambda: linear_operator.root_inv_decomposition(A).to_dense(), lambda: linear_operator.solve(A, rhs),
+                              lambda: linear_operator.sqrt_inv_matmul(A, rhs)]
+                        for f in fs:
+                            try:
+                                out.append(_iter(f) if st == "iterative" else f())
+                            except Exception:
+                                pass          # a negative / zero 1x1 "matrix" may legitimately be rejected; the caller's tensors must stay intact
+                        return out
+                    return go
+                add("functions", "%s/n%d/%s" % (sign, n, st), b)
+    return C
+
+
+class Flag:
+    """duck-typed watch that is a hit as soon as it exists"""
+    def __init__(self, what):
+        self.name, self.what = what, what
+        self.view = self.owner = None
+
+    def effects(self):
+        return ["values"]
+
+
+# ------------------------------------------------------------------------------------------------
 # operator methods
 
 def _methods():
